@@ -98,6 +98,11 @@ class TranslateNode(Node, TranslatableTag):
 
     def render_to_output(self, context: RenderContext, buffer: TextIO) -> int:
         """Render the node to the output buffer."""
+        if not self.singular_block.block.nodes and not self.plural_block:
+            # There is no message. The empty string is not a message id, it is
+            # where catalogs keep their metadata.
+            return 0
+
         translations = self.resolve_translations(context)
         namespace = {k: expr.value.evaluate(context) for k, expr in self.args.items()}
         count = self.resolve_count(context, namespace)
@@ -116,6 +121,11 @@ class TranslateNode(Node, TranslatableTag):
         self, context: RenderContext, buffer: TextIO
     ) -> int:
         """Render the node to the output buffer."""
+        if not self.singular_block.block.nodes and not self.plural_block:
+            # There is no message. The empty string is not a message id, it is
+            # where catalogs keep their metadata.
+            return 0
+
         translations = self.resolve_translations(context)
         namespace = {
             k: await expr.value.evaluate_async(context) for k, expr in self.args.items()
